@@ -1,0 +1,13 @@
+//go:build verif
+
+package circuitbreaker
+
+type verifClock struct{ now func() int64 }
+
+func (c verifClock) CurrentUnixNano() int64 { return c.now() }
+
+// VerifWithClock replaces the time source of the builder's breakers. Verification hook, only built with -tags verif.
+func VerifWithClock[R any](b CircuitBreakerBuilder[R], nowUnixNano func() int64) CircuitBreakerBuilder[R] {
+	b.(*config[R]).clock = verifClock{now: nowUnixNano}
+	return b
+}
